@@ -4965,7 +4965,7 @@ class Path:
         ):
             if not new_path.jumped:
                 new_path.jumped = True
-                for segid in new_path.segments.keys():
+                for segid in list(new_path.segments.keys()):
                     seg = new_path.segments[segid]
                     # if destinations await the second round, add them
                     if len(seg.await_to) > 0:
@@ -4973,8 +4973,12 @@ class Path:
                         to = [idx for idx in seg.to if idx <= seg.id]
                         # add the waiting destinations
                         to += seg.await_to
-                        # replace destinations
+                        # replace destinations in a copy of the segment that
+                        # is private to this path: the Segment objects are
+                        # shared with all other paths and with the part
+                        seg = copy(seg)
                         seg.to = to
+                        new_path.segments[segid] = seg
                     # delete used destinations
                     new_path.used_segment_jumps[segid] = list()
                 # add the jump destination to the used ones
